@@ -224,7 +224,7 @@ impl Seed {
 // ------------------------------------------------------------------ prefix ladders
 
 /// thorough: every length up to 4 KiB, then every 97th, and the last 64.
-/// quick: every length up to 256, every 7th up to 4 KiB, every 997th beyond, the last 16.
+/// quick: every length up to 160, every 11th up to 4 KiB, every 997th beyond, the last 16.
 pub fn prefix_lengths(len: usize, thorough: bool) -> Vec<usize> {
     let mut v = vec![];
     if thorough {
@@ -232,8 +232,8 @@ pub fn prefix_lengths(len: usize, thorough: bool) -> Vec<usize> {
         v.extend((4096..len).step_by(97));
         v.extend(len.saturating_sub(64)..len);
     } else {
-        v.extend(0..len.min(256));
-        v.extend((256..len.min(4096)).step_by(7));
+        v.extend(0..len.min(160));
+        v.extend((160..len.min(4096)).step_by(11));
         v.extend((4096..len).step_by(997));
         v.extend(len.saturating_sub(16)..len);
     }
